@@ -279,3 +279,77 @@ def gen_client_options(repo):
     out += 'Definition tcp_queue_field : opt_field := ' + F['max_queued_requests'] + '.\n' if 'max_queued_requests' in F else ''
     out += 'Definition serial_limit : option N := None.\n'
     return out
+
+
+# ------------------------------------------------------------------------------- where the connection is closed (C13)
+def _arm_effects(expr, what):
+    """the statements of one arm of `match self.client_loop.run(&mut phys).await`, in order, as effects"""
+    body = expr.strip()
+    if body.startswith('{') and body.endswith('}'):
+        body = body[1:-1]
+    effects = []
+    for stmt in [x.strip() for x in re.split(r';', body)]:
+        if not stmt:
+            continue
+        flat = re.sub(r'\s+', '', stmt)
+        if flat == 'drop(phys)':
+            effects.append('FxDrop')
+        elif re.fullmatch(r'self\.listener\.update\((?:ClientState|PortState)::[A-Za-z]+(?:\([a-z]*\))?\)\.get\(\)\.await', flat):
+            effects.append('FxNotify')
+        elif re.fullmatch(r'self\.client_loop\.fail_requests_for\(delay\)\.await', flat):
+            effects.append('FxWait')
+        elif re.fullmatch(r'letdelay=self\.(?:connect_retry|retry)\.after_disconnect\(\)', flat):
+            pass
+        elif re.match(r'(?:log_channel_event!|tracing::[a-z]+!)\(', flat):
+            pass
+        elif flat in ('Ok(())', 'Err(StateChange::Shutdown)'):
+            pass
+        else:
+            raise ParseError(f'{what}: statement not understood: {stmt[:70]}')
+    return effects + ['FxScopeEnd']          # the owned PhysLayer goes out of scope when the function returns
+
+
+def _scope_table(src, fn_re, what, ses_names):
+    body = rp.find_body(src, fn_re)
+    m = re.search(r'match\s+self\.client_loop\.run\(\s*&mut\s+phys\s*\)\s*\.await\s*\{', body)
+    if not m:
+        raise ParseError(f'{what}: `match self.client_loop.run(&mut phys).await` not found')
+    arms = rp.match_arms(rp.block_after(body, m.end() - 1)[0])
+    table = {}
+    for pat, expr in arms:
+        for alt in pat.split('|'):
+            a = re.fullmatch(r'SessionError::([A-Za-z]+)(?:\(_\))?', alt.strip())
+            if not a or a.group(1) not in ses_names:
+                raise ParseError(f'{what}: arm pattern not understood: {alt.strip()}')
+            table[a.group(1)] = _arm_effects(expr, what)
+    if sorted(table) != sorted(ses_names):
+        raise ParseError(f'{what}: the arms do not cover SessionError exactly')
+    return table
+
+
+@generator('ClientScope.v', 'rodbus/src/tcp/client.rs', 'rodbus/src/serial/client.rs', 'rodbus/src/client/task.rs')
+def gen_client_scope(repo):
+    """Gen/ClientScope.v: the order of effects after `ClientLoop::run` returned - where the PhysLayer (the socket / the
+    port) is dropped relative to the listener notifications.  run_connection (TCP, TLS) and try_open_and_run (serial) own
+    the PhysLayer: what each arm does until the function returns is recorded; the notifications made by the callers
+    (run_inner: Disabled, run: Shutdown) must come after the call has returned."""
+    task = rp.read(f'{repo}/rodbus/src/client/task.rs')
+    ses_names = [n for n, _ in _variants(rp.find_body(task, r'pub\(crate\)\s+enum\s+SessionError\s*\{'), 'SessionError')]
+    out = 'From Rodbus Require Import Gen.SessionErrors.\n\n(* what an arm of `match self.client_loop.run(&mut phys).await` does, in order, until the owner of the PhysLayer returns *)\n'
+    out += 'Inductive scope_effect := FxDrop | FxNotify | FxWait | FxScopeEnd.\n'
+    for name, path, fn_re, call in (
+            ('tcp', 'rodbus/src/tcp/client.rs', r'async\s+fn\s+run_connection\s*\(\s*&mut\s+self\s*,\s*mut\s+phys\s*:\s*PhysLayer\s*\)[^{]*\{', 'try_connect_and_run'),
+            ('serial', 'rodbus/src/serial/client.rs', r'pub\(crate\)\s+async\s+fn\s+try_open_and_run\s*\(\s*&mut\s+self\s*\)[^{]*\{', 'try_open_and_run')):
+        src = rp.read(f'{repo}/{path}')
+        table = _scope_table(src, fn_re, f'{name} client', ses_names)
+        # the callers: run_inner notifies Disabled only after the call returned; run notifies Shutdown after run_inner returned
+        inner = rp.find_body(src, r'async\s+fn\s+run_inner\s*\(\s*&mut\s+self\s*\)\s*->\s*Shutdown\s*\{')
+        if not re.search(r'if\s+let\s+Err\(\s*StateChange::Shutdown\s*\)\s*=\s*self\.' + call + r'\(\)\s*\.await\s*\{\s*return\s+Shutdown\s*;\s*\}\s*'
+                         r'if\s+!\s*self\.client_loop\.is_enabled\(\)\s*\{\s*self\.listener\.update\(\s*(?:ClientState|PortState)::Disabled\s*\)\s*\.get\(\)\s*\.await\s*;\s*\}', inner):
+            raise ParseError(f'{name} client: run_inner does not report Disabled after {call}() has returned')
+        run = rp.find_body(src, r'pub\(crate\)\s+async\s+fn\s+run\s*\(\s*&mut\s+self\s*\)\s*->\s*Shutdown\s*\{')
+        if not re.search(r'let\s+ret\s*=\s*self\.run_inner\(\)\s*\.await\s*;\s*self\.listener\.update\(\s*(?:ClientState|PortState)::Shutdown\s*\)\s*\.get\(\)\s*\.await\s*;\s*ret', run):
+            raise ParseError(f'{name} client: run does not report Shutdown after run_inner() has returned')
+        out += f'(* {path} *)\nDefinition {name}_arm (e : session_error) : list scope_effect :=\n  match e with\n'
+        out += ''.join(f'  | Se{n} => [{"; ".join(table[n])}]\n' for n in ses_names) + '  end.\n'
+    return out
